@@ -38,6 +38,7 @@ instance : Num Float where
   nextUp := f64NextUp
   nextDown := f64NextDown
   ofUsize n := Float.ofNat n
+  inf := Float.ofBits 0x7FF0000000000000
 
 def f32NextUp (v : Float32) : Float32 :=
   if v.isInf && v > 0 then v else
@@ -74,5 +75,6 @@ instance : Num Float32 where
   nextUp := f32NextUp
   nextDown := f32NextDown
   ofUsize n := Float32.ofNat n
+  inf := Float32.ofBits 0x7F800000
 
 end G3d
